@@ -7,7 +7,7 @@ tprog.DTYPE_KW = True
 tprog.ENTRIES = True        # function / Tensor method / operator / augmented operator statement, varying from call to call
 
 PROP = 'C07'
-LEAN_TARGETS = ['Props.C07']
+LEAN_TARGETS = ['Props.C07', 'genlogic']      # genlogic: the definitions generated from the source on this run, executable
 REQUIRED_THEOREMS = ['Props.C07.modes_stack', 'Props.C07.ctx_restores', 'Props.C07.result_requires_grad_rule',
                      'Props.C07.no_grad_result_has_no_history', 'Props.C07.release_rule', 'Props.C07.float_only',
                      'Props.C07.detach_is_plain', 'Props.C07.gradTensor_is_plain', 'Props.C07.fromData_is_leaf', 'Props.C07.copyTensor_same']
